@@ -555,6 +555,157 @@ def conflicting_response_key(rng, doc, s):
     return True
 
 
+def _required_args(rng, s, f):
+    args = collections.OrderedDict()
+    for a in f.args:
+        if a.type[0] == "nonnull" and not a.has_default:
+            args[a.name] = _sg(rng, s).input_value_for(a.type)
+    return args
+
+
+def _is_leaf(s, t):
+    return s.kind(S.unwrap(t)) in ("scalar", "enum")
+
+
+@operator("OverlappingFieldsCanBeMergedChecker")
+def conflict_between_later_duplicates(rng, doc, s):
+    """Three fields under one response key: the first is compatible with each of the other two, which
+    conflict with each other one level down (being mergeable is not transitive)."""
+    cands = []
+    for sels, scope, owner in walk_selection_lists(doc, s):
+        st = s.types.get(scope)
+        if st is None or st.kind not in ("object", "interface"):
+            continue
+        for f in st.fields:
+            target = s.types.get(S.unwrap(f.type))
+            if target is not None and target.kind in ("object", "interface"):
+                leafs = [g for g in target.fields if not [a for a in g.args if a.type[0] == "nonnull" and not a.has_default]]
+                if len(leafs) >= 2:
+                    cands.append((sels, st, f, target, leafs))
+    if not cands:
+        return None
+    sels, st, f, target, leafs = rng.choice(cands)
+    g, h = rng.sample(leafs, 2)
+    args = _required_args(rng, s, f)
+
+    def sub(x):
+        inner = None
+        if s.kind(S.unwrap(x.type)) in ("object", "interface", "union"):
+            inner = [opgen.OField("__typename", S.unwrap(x.type))]
+        return opgen.OField(x.name, target.name, "lab", collections.OrderedDict(), [], inner)
+
+    trio = [opgen.OField(f.name, st.name, "trio", copy.deepcopy(args), [], [opgen.OField("__typename", target.name)]),
+            opgen.OField(f.name, st.name, "trio", copy.deepcopy(args), [], [sub(g)]),
+            opgen.OField(f.name, st.name, "trio", copy.deepcopy(args), [], [sub(h)])]
+    if rng.random() < 0.3:
+        trio[1], trio[2] = trio[2], trio[1]
+    for x in trio:
+        sels.insert(rng.randint(0, len(sels)), x) if rng.random() < 0.3 else sels.append(x)
+    # keep "first compatible with both" true: the plain one must come first
+    plain = trio[0]
+    sels.remove(plain)
+    sels.insert(min(sels.index(trio[1]), sels.index(trio[2])), plain)
+    return True
+
+
+def _exclusive_leaf_pairs(s, scope, same_shape):
+    """[(T1, f1, T2, f2)] for distinct possible object types of scope and argument-free leaf fields whose
+    types are identical (same_shape) or have different named types."""
+    out = []
+    poss = [s.types[n] for n in s.possible_types(scope)] if s.types[scope].kind != "object" else []
+    for i, t1 in enumerate(poss):
+        for t2 in poss[i + 1:]:
+            for f1 in t1.fields:
+                if f1.args or not _is_leaf(s, f1.type):
+                    continue
+                for f2 in t2.fields:
+                    if f2.args or not _is_leaf(s, f2.type) or f1.name == f2.name:
+                        continue
+                    if same_shape and f1.type == f2.type:
+                        out.append((t1, f1, t2, f2))
+                    if not same_shape and S.unwrap(f1.type) != S.unwrap(f2.type):
+                        out.append((t1, f1, t2, f2))
+    return out
+
+
+@operator("OverlappingFieldsCanBeMergedChecker")
+def different_shapes_on_exclusive_types(rng, doc, s):
+    """`... on A { k: intField } ... on B { k: stringField }`: the parent types exclude each other,
+    but the response shapes differ. One side may sit in a fragment without type condition."""
+    cands = []
+    for sels, scope, owner in walk_selection_lists(doc, s):
+        if scope in s.types and s.types[scope].kind in ("interface", "union"):
+            pairs = _exclusive_leaf_pairs(s, scope, same_shape=False)
+            if pairs:
+                cands.append((sels, pairs))
+    if not cands:
+        return None
+    sels, pairs = rng.choice(cands)
+    t1, f1, t2, f2 = rng.choice(pairs)
+    a = [opgen.OField(f1.name, t1.name, "shape")]
+    b = [opgen.OField(f2.name, t2.name, "shape")]
+    if rng.random() < 0.5:
+        a = [opgen.OInline(None, a)]
+    if rng.random() < 0.3:
+        b = [opgen.OInline(None, b)]
+    sels.append(opgen.OInline(t1.name, a))
+    sels.append(opgen.OInline(t2.name, b))
+    return True
+
+
+def _lists_under_wrapped_fields(doc, s):
+    """Selection lists of fields whose declared type is a list or non-null wrapper."""
+    out = []
+
+    def rec(sels, scope):
+        for x in sels:
+            if x.kind == "field" and x.selection is not None:
+                st = s.types.get(scope)
+                f = st.field(x.name) if st is not None and st.kind in ("object", "interface") else None
+                if f is not None:
+                    if f.type[0] != "named":
+                        out.append((x.selection, S.unwrap(f.type)))
+                    rec(x.selection, S.unwrap(f.type))
+            elif x.kind == "inline":
+                rec(x.selection, x.type_cond or scope)
+    roots = dict(s.roots())
+    for op in doc.operations:
+        rec(op.selection, roots[op.kind])
+    for fr in doc.fragments.values():
+        rec(fr.selection, fr.type_cond)
+    return out
+
+
+@operator("FieldsOnCorrectTypeChecker")
+def unknown_field_in_untyped_fragment(rng, doc, s):
+    """An undefined field inside `... { }` directly under a list / non-null typed field."""
+    lists = _lists_under_wrapped_fields(doc, s)
+    if not lists:
+        return None
+    sels, scope = rng.choice(lists)
+    sels.insert(rng.randint(0, len(sels)), opgen.OInline(None, [opgen.OField(rng.choice(["noSuchField", "zz"]), scope)]))
+    return True
+
+
+@operator("ScalarLeafsChecker")
+def leaf_selection_in_untyped_fragment(rng, doc, s):
+    """A leaf with a sub-selection / a composite without one, inside `... { }` under a wrapped field."""
+    cands = []
+    for sels, scope in _lists_under_wrapped_fields(doc, s):
+        st = s.types.get(scope)
+        if st is None or st.kind not in ("object", "interface"):
+            continue
+        for f in st.fields:
+            if not [a for a in f.args if a.type[0] == "nonnull" and not a.has_default]:
+                cands.append((sels, st, f))
+    if not cands:
+        return None
+    sels, st, f = rng.choice(cands)
+    sub = [opgen.OField("__typename", S.unwrap(f.type))] if _is_leaf(s, f.type) else None
+    sels.append(opgen.OInline(None, [opgen.OField(f.name, st.name, "leafcheck", collections.OrderedDict(), [], sub)]))
+    return True
+
+
 def _sg(rng, s):
     g = S.SchemaGen(rng)
     g.s = s
@@ -753,6 +904,13 @@ def transform(rng, doc):
         for fr in list(d.fragments.values()) + list(getattr(d, "dup_fragments", [])):
             fr.directives = [(n, collections.OrderedDict((k, rv(v)) for k, v in a.items())) for n, a in fr.directives]
         kinds.append("rename-variables")
+    if rng.random() < 0.4:
+        def wrap(sels):
+            for i, x in enumerate(list(sels)):
+                if x.kind in ("field", "spread") and rng.random() < 0.25 and not getattr(x, "no_wrap", False):
+                    sels[i] = opgen.OInline(None, [x])
+        each_list(wrap)
+        kinds.append("wrap-in-untyped-inline-fragments")
     n_parts = len(d.operations) + len(d.fragments) + len(getattr(d, "dup_fragments", [])) + (1 if getattr(d, "extra_text", None) else 0)
     order = list(range(n_parts))
     if rng.random() < 0.7:
